@@ -16,7 +16,8 @@ PROP = {
         "DAYS_PER_400Y/100Y/4Y, DAYS_IN_MONTH, MIN, MAX (MIR bodies, translated on every run)",
     ],
     "bounds": "timestamp text: every length 0..=32 (quick: 0..=19 symbolic, 20,21,22,25,30,31), bytes over "
-              "{0,1,2,9,-,:,.,T,Z,+,blank,z,x} plus one U+00E9 at a symbolic offset; paths <= 5 (thorough 7) bytes over {a,b,_,1,:,blank,U+00E9}; "
+              "{0,1,2,9,-,:,.,T,Z,+,blank,z,x} plus one U+00E9 at a symbolic offset; format->parse at every precision for all calendar fields, the sub-second "
+              "round trip for nanosecond values with <= 2 (thorough 3) non-zero decimal digits at symbolic positions; paths <= 5 (thorough 7) bytes over {a,b,_,1,:,blank,U+00E9}; "
               "ids: every 32 / 16 byte string over all 256 byte values, every length 0..=35, every non-zero 128/64-bit value; "
               "levels: strings <= 4 (thorough 6) bytes over an 18-symbol alphabet; kinds <= 6 bytes; "
               "E2 calendar obligations: every Timestamp in [MIN, MAX] (secs 0..=253402300799, nanos 0..=999999999, all pairs for "
